@@ -33,6 +33,8 @@ QUICK_CATALOGS = ['names', 'dicts', 'with-predictors', 'named-crm_views', 'named
 
 def _plan(args):
     sql, cat = args
+    hb = cat.endswith('+tuples')
+    cat = cat.split('+')[0]
     c = CATALOGS[cat]
     if c.get('rename'):
         import re
@@ -40,7 +42,7 @@ def _plan(args):
         sql = re.sub(r'\bint1\b', new, sql)
         sql = re.sub(r'\bINT1\b', new.upper(), sql)
     r = planexec.plan_case(sql, integrations=c['integrations'], default_namespace=c['default_namespace'],
-                           extra=c.get('extra'), rename_back=c.get('rename'))
+                           extra=c.get('extra'), rename_back=c.get('rename'), handbuilt=hb)
     return r
 
 
@@ -56,6 +58,9 @@ def run(ctx):
         sql = qspace.render(c)
         for cat in (CATALOGS if thorough else QUICK_CATALOGS):
             work.append((sql, cat, c))
+        if c['body'] in ('group', 'having', 'order-limit', 'distinct', 'subquery-from'):
+            # the tree handed to the planner built "by hand": GROUP BY / ORDER BY lists given as tuples
+            work.append((sql, 'names+tuples', c))
     planned = pmap(_plan, [(s, cat) for s, cat, _ in work], chunksize=16)
     status = {}
     cases = []
